@@ -10,7 +10,7 @@ BOOL-1  handlers of the broadcast boolean event balldevice_balls_available never
 import ast
 
 from sa.model import src, short, dotted, call_attr, kwarg, walk_local, AnalysisError, const_value
-from sa.helpers import feasible_paths
+from sa.helpers import feasible_paths, inloop_guards
 from sa.index import get_index
 
 OB = "mpf/devices/ball_device/outgoing_balls_handler.py"
@@ -219,6 +219,7 @@ def check(chk):
     _claimed_vs_physical(chk, repo)
     _bounded_waits(chk, repo)
     _wakeups(chk, repo)
+    _request_loop_and_self_cancel(chk, repo)
 
     # ------------------------------------------------------------- BOOL-1
     n_h = 0
@@ -245,6 +246,56 @@ def check(chk):
                    detail="post_boolean stops at the first handler returning False: devices registered later never learn that balls are available",
                    construct=hm.ident, text="handler returns a value")
     chk.expect(n_h >= 1, "C05: handlers of balldevice_balls_available lost")
+
+
+def _request_loop_and_self_cancel(chk, repo):
+    """REQ-5: BallDevice.eject(balls=N) makes N requests: each trip of the loop over range(balls) starts or queues one request, and the loop
+    is never left early (a request that finds no ball is queued, the following ones must be queued as well).
+    CANCEL-5: a handler coroutine that cancels its own task does so last: the next await after task.cancel() raises CancelledError, and
+    whatever the coroutine still meant to do (report the device broken) never happens."""
+    f = repo.func(BD, "BallDevice.eject")
+    chk.analysed(f)
+    cfg = f.cfg()
+    loops = [x for x in walk_local(f.node) if isinstance(x, ast.For)]
+    chk.need(len(loops) == 1, "REQ-5", "BallDevice.eject loops over the requested balls", f)
+    lp = loops[0]
+    it = lp.iter
+    ok = isinstance(it, ast.Call) and isinstance(it.func, ast.Name) and it.func.id == "range" and [src(a) for a in it.args] == ["balls"]
+    chk.ob("REQ-5", "one trip per requested ball (range(balls))", ok, f.where(lp), detail=src(it), construct=f.ident, text="request loop bound")
+    leaves = [x for st in lp.body for x in ast.walk(st) if isinstance(x, (ast.Break, ast.Return, ast.Raise))]
+    chk.ob("REQ-5", "the request loop is never left early (requests that find no ball are queued, one per remaining ball)", not leaves,
+           f.where(leaves[0]) if leaves else f.where(lp), construct=f.ident, text="request loop left early")
+    head = [h for h in cfg.nodes if h.kind in ("loop", "join") and h.ast is lp]
+    cs = [(n, c) for n, c in cfg.calls_named("_setup_or_queue_eject_to_target")]
+    ok = len({id(c) for _, c in cs}) == 1 and bool(head) and [src(a) for a in cs[0][1].args] == ["target"] and \
+        all(not {g for g in inloop_guards(cfg, n.id, head[0].id) if "_setup_or_queue_eject_to_target" not in g[0]} for n, _ in cs)
+    chk.ob("REQ-5", "every trip starts or queues one request for the target", ok, f.where(), construct=f.ident, text="request per trip")
+    ee = repo.func(BD, "BallDevice.event_eject")
+    chk.analysed(ee)
+    c_ = [c for c in ee.calls() if call_attr(c) == "eject" and dotted(c.func.value) == "self"]
+    ok = len(c_) == 1 and [src(a) for a in c_[0].args] + [(k.arg, src(k.value)) for k in c_[0].keywords] in (["balls", "target"], [("balls", "balls"), ("target", "target")])
+    chk.ob("REQ-5", "the eject control event hands balls and target on", ok, ee.where(), construct=ee.ident, text="event_eject forwards")
+
+    n_c = 0
+    for rel, m in sorted(repo.modules.items()):
+        if not rel.startswith("mpf/devices/ball_device/"):
+            continue
+        for fn in m.all_funcs():
+            if not isinstance(fn.node, ast.AsyncFunctionDef):
+                continue
+            fc = fn.cfg()
+            for n, c in fc.calls_named("cancel"):
+                if src(c.func.value) != "self._task":
+                    continue
+                n_c += 1
+                chk.analysed(fn)
+                after = fc.reachable([s_ for s_ in fc.succs(n.id, True)], ignore_exc=True)
+                aw = [fc.nodes[i] for i in after if fc.nodes[i].kind != "branch" and fc.nodes[i].ast is not None and
+                      any(isinstance(y, ast.Await) for y in (ast.walk(fc.nodes[i].ast) if fc.nodes[i].kind == "stmt" and not
+                                                              isinstance(fc.nodes[i].ast, (ast.For, ast.While, ast.If, ast.Try, ast.With, ast.AsyncWith, ast.AsyncFor)) else []))]
+                chk.ob("CANCEL-5", "%s cancels its own task last: nothing is awaited after self._task.cancel()" % fn.qualname, not aw,
+                       fn.where(c), detail="awaited afterwards: %s" % [short(a.ast, 50) for a in aw[:3]], construct=fn.ident, text="await after self-cancel")
+    chk.expect(n_c >= 1, "C05: the eject loop's self-cancel vanished")
 
 
 def _requests_sized_by_unclaimed(chk, repo):
@@ -648,6 +699,8 @@ def battery():
         M("multiball forgets what earlier locks released", "mpf/devices/multiball.py", "            balls_added += balls_to_release", "            balls_added = balls_to_release", "SAVE-5"),
         M("multiball lock requests the full number again", "mpf/devices/multiball_lock.py", "        self.source_playfield.add_ball(balls=max(balls - balls_added, 0))", "        self.source_playfield.add_ball(balls=balls)", "SAVE-5"),
         M("request served from the physical ball count", BD, "        if self.available_balls > 0 and self != target:", "        if self.balls > 0 and self != target:", "OWN-5"),
+        M("request loop left at the first ball that is not available", BD, "            if self._setup_or_queue_eject_to_target(target):\n                balls_found += 1", "            if not self._setup_or_queue_eject_to_target(target):\n                break\n            balls_found += 1", "REQ-5"),
+        M("own task cancelled before the broken report", OB, "                self.ball_device.set_eject_state(\"eject_broken\")\n", "                self.ball_device.set_eject_state(\"eject_broken\")\n                self._task.cancel()\n", "CANCEL-5"),
     ]
 
 
